@@ -1,4 +1,122 @@
-import AffVerif.Model.Aff
-/-! # C14 (theorems added below as they are proved) -/
+import AffVerif.Proofs.PruneSound
+import AffVerif.Proofs.ArithLift
+/-!
+# C14 — polytope constructors and transformations are set-exact
+
+Membership theorems over any ordered field, each under the dimension guard the code asserts (`WF` = one bias entry
+per row and rows of the stated width, which `from_mats` / ndarray guarantee).
+`Poly.Mem p x` is `mat·x ≤ bias` row by row.
+-/
+set_option linter.unusedSectionVars false
+set_option linter.unusedVariables false
 namespace AV
+variable {α : Type} [Field α] [LinearOrder α] [IsStrictOrderedRing α]
+
+theorem rows_append (p q : Aff α) (hp : p.bias.length = p.mat.length) :
+    (Poly.intersection p q).rows = p.rows ++ q.rows := by
+  unfold Poly.intersection Aff.rows
+  simp only
+  exact List.zip_append hp.symm
+
+/-- `x ∈ P ∩ Q ↔ x ∈ P ∧ x ∈ Q` -/
+theorem C14_intersection (p q : Aff α) (x : List α) (hp : p.WF) :
+    Poly.Mem (Poly.intersection p q) x ↔ Poly.Mem p x ∧ Poly.Mem q x := by
+  unfold Poly.Mem
+  rw [rows_append p q hp.2]
+  constructor
+  · intro h
+    exact ⟨fun rb hrb => h rb (List.mem_append_left _ hrb), fun rb hrb => h rb (List.mem_append_right _ hrb)⟩
+  · rintro ⟨h1, h2⟩ rb hrb
+    rcases List.mem_append.mp hrb with h | h
+    · exact h1 rb h
+    · exact h2 rb h
+
+/-- `x ∈ intersection_n(d, Ps) ↔ ∀ P ∈ Ps, x ∈ P` (the empty list gives the whole space) -/
+theorem C14_intersection_n (n : Nat) (ps : List (Aff α)) (x : List α) :
+    Poly.Mem (Poly.intersectionN n ps) x ↔ ∀ p ∈ ps, Poly.Mem p x := by
+  constructor
+  · intro h p hp rb hrb
+    unfold Poly.intersectionN at h
+    have hne : ps.isEmpty = false := by cases ps <;> simp_all
+    simp only [hne, Bool.false_eq_true, if_false] at h
+    apply h
+    rw [ofRows_rows]
+    exact List.mem_flatMap.mpr ⟨p, hp, hrb⟩
+  · intro h
+    exact mem_intersectionN n ps x (fun p hp => h p hp)
+
+theorem mem_iff_zip (mat : Mat α) (bias : List α) (n : Nat) (x : List α) :
+    Poly.Mem (⟨mat, bias, n⟩ : Aff α) x ↔ ∀ rb ∈ mat.zip bias, dot rb.1 x ≤ rb.2 := Iff.rfl
+
+/-- `x ∈ P.translate(d) ↔ x − d ∈ P` -/
+theorem C14_translate (p : Aff α) (d x : List α) (hxd : x.length = d.length) :
+    Poly.Mem (Poly.translate p d) x ↔ Poly.Mem p (vsub x d) := by
+  unfold Poly.translate Poly.Mem Aff.rows
+  simp only
+  -- row by row: a·x ≤ b + a·d ↔ a·(x − d) ≤ b
+  have key : ∀ (mat : Mat α) (bias : List α),
+      (∀ rb ∈ mat.zip (vadd bias (matVec mat d)), dot rb.1 x ≤ rb.2) ↔
+      (∀ rb ∈ mat.zip bias, dot rb.1 (vsub x d) ≤ rb.2) := by
+    intro mat
+    induction mat with
+    | nil => intro bias; simp
+    | cons a as ih =>
+      intro bias
+      cases bias with
+      | nil => simp
+      | cons b bs =>
+        simp only [matVec, List.map_cons, vadd_cons, List.zip_cons_cons, List.mem_cons, forall_eq_or_imp]
+        have := ih bs
+        simp only [matVec] at this
+        rw [this, dot_vsub_right a x d hxd]
+        constructor
+        · rintro ⟨h1, h2⟩; exact ⟨by linarith, h2⟩
+        · rintro ⟨h1, h2⟩; exact ⟨by linarith, h2⟩
+  exact key p.mat p.bias
+
+/-- `x ∈ P.apply_pre(f) ↔ f(x) ∈ P` -/
+theorem C14_apply_pre (p f : Aff α) (x : List α) (hf : f.WF) (hpf : ∀ r ∈ p.mat, r.length = f.outdim)
+    (hx : x.length = f.indim) :
+    Poly.Mem (Poly.applyPre p f) x ↔ Poly.Mem p (f.apply x) := by
+  unfold Poly.applyPre Poly.Mem Aff.rows
+  simp only
+  have key : ∀ (mat : Mat α) (bias : List α), (∀ r ∈ mat, r.length = f.outdim) →
+      ((∀ rb ∈ (matMul f.indim mat f.mat).zip (vadd (vneg (matVec mat f.bias)) bias), dot rb.1 x ≤ rb.2) ↔
+       (∀ rb ∈ mat.zip bias, dot rb.1 (f.apply x) ≤ rb.2)) := by
+    intro mat
+    induction mat with
+    | nil => intro bias _; simp [matMul]
+    | cons a as ih =>
+      intro bias hm
+      cases bias with
+      | nil => simp [matMul, matVec, vneg]
+      | cons b bs =>
+        have ha : a.length = f.mat.length := hm a (List.mem_cons_self)
+        simp only [matMul, matVec, vneg, List.map_cons, vadd_cons, List.zip_cons_cons, List.mem_cons,
+          forall_eq_or_imp]
+        have := ih bs (fun r hr => hm r (List.mem_cons_of_mem _ hr))
+        simp only [matMul, matVec, vneg] at this
+        rw [this]
+        have e1 : dot (vecMat f.indim a f.mat) x = dot a (matVec f.mat x) := dot_vecMat f.indim a f.mat x hf.1 ha
+        have e2 : dot a (f.apply x) = dot a (matVec f.mat x) + dot a f.bias := by
+          unfold Aff.apply
+          exact dot_vadd_right a _ _ (by simp [hf.2])
+        rw [e1, e2]
+        constructor
+        · rintro ⟨h1, h2⟩; exact ⟨by linarith, h2⟩
+        · rintro ⟨h1, h2⟩; exact ⟨by linarith, h2⟩
+  exact key p.mat p.bias hpf
+
+/-- `unbounded(n)` contains every point, `empty(n)` none -/
+theorem C14_unbounded_empty (n : Nat) (x : List α) :
+    Poly.Mem (Poly.unbounded n : Aff α) x ∧ ¬ Poly.Mem (Poly.empty n : Aff α) x := by
+  constructor
+  · intro rb hrb
+    simp [Poly.unbounded, Aff.rows] at hrb
+    subst hrb; simp
+  · intro h
+    have := h (zeros n, -1) (by simp [Poly.empty, Aff.rows])
+    simp at this
+    linarith
+
 end AV
